@@ -499,7 +499,7 @@ impl Monitor for C15 {
 }
 
 pub fn run(p: &Params) -> Report {
-    let total = p.n(360, 7200);
+    let total = p.n(1200, 30000);
     let mine = p.share(total);
     let mut rng = Rng::new(p.shard_seed() ^ 0xC15);
     let mut mon = C15 { rep: Report::new("C15"), case_seed: 0 };
